@@ -12,6 +12,20 @@ struct url {
   opt_str_t host; str_t path; opt_str_t query; opt_str_t hash; opt_uint16_t port; str_t username; str_t password;
   str_t non_special_scheme;
 };
+/* type invariant of an ada::url in the string model: every string within capacity and NUL-terminated */
+#define STR_SHAPE(s) ((s).n <= STR_CAP && (s).d[(s).n] == 0)
+#define URL_SHAPE(u) ((u)->base.type >= 0 && (u)->base.type <= 6 && (u)->base.host_type >= 0 && (u)->base.host_type <= 2 && STR_SHAPE((u)->host.v) && STR_SHAPE((u)->path) && \
+  STR_SHAPE((u)->query.v) && STR_SHAPE((u)->hash.v) && STR_SHAPE((u)->username) && STR_SHAPE((u)->password) && STR_SHAPE((u)->non_special_scheme))
+#define URL_HAS_CRED(u) ((u)->username.n > 0 || (u)->password.n > 0)
+static inline _Bool str_eqv(const str_t *a, const str_t *b) { if (a->n != b->n) return 0; for (size_t i = 0; i < STR_CAP; i++) if (i < a->n && a->d[i] != b->d[i]) return 0; return 1; }
+static inline _Bool url_eqv(struct url a, struct url b) {
+  if (a.base.is_valid != b.base.is_valid || a.base.has_opaque_path != b.base.has_opaque_path || a.base.host_type != b.base.host_type || a.base.type != b.base.type) return 0;
+  if (a.host.has != b.host.has || (a.host.has && !str_eqv(&a.host.v, &b.host.v))) return 0;
+  if (a.query.has != b.query.has || (a.query.has && !str_eqv(&a.query.v, &b.query.v))) return 0;
+  if (a.hash.has != b.hash.has || (a.hash.has && !str_eqv(&a.hash.v, &b.hash.v))) return 0;
+  if (a.port.has != b.port.has || (a.port.has && a.port.v != b.port.v)) return 0;
+  return str_eqv(&a.path, &b.path) && str_eqv(&a.username, &b.username) && str_eqv(&a.password, &b.password) && str_eqv(&a.non_special_scheme, &b.non_special_scheme);
+}
 typedef struct { _Bool has; struct url_aggregator v; } result_url_aggregator_t;   /* ada::result<url_aggregator> = tl::expected<url_aggregator, errors> */
 typedef struct { const char *data; size_t length; } ada_string;
 typedef struct { const char *data; size_t length; } ada_owned_string;
@@ -37,6 +51,15 @@ static inline uint32_t get_max_input_length(void) { return g_max_input_length; }
   ((u)->components.search_start == OMITTED || (u)->components.pathname_start <= (u)->components.search_start) && \
   ((u)->components.hash_start == OMITTED || (u)->components.pathname_start <= (u)->components.hash_start) && \
   ((u)->components.search_start == OMITTED || (u)->components.hash_start == OMITTED || (u)->components.search_start < (u)->components.hash_start))
+/* layout fact (see spec/agg_wf.h): the username is [protocol_end+2, username_end), a password exists iff host_start > username_end */
+#define AGG_HAS_USER(u) ((u)->components.protocol_end + 2u < (u)->components.username_end)
+#define AGG_HAS_PASS(u) ((u)->components.host_start > (u)->components.username_end)
+#define AGG_HOST_EMPTY(u) ((u)->components.host_start == (u)->components.host_end)
+/* the same facts about the pre-state inside a contract (CBMC's __CPROVER_old accepts lvalues only) */
+#define AGG_HAS_USER_OLD(u) (__CPROVER_old((u)->components.protocol_end) + 2u < __CPROVER_old((u)->components.username_end))
+#define AGG_HAS_PASS_OLD(u) (__CPROVER_old((u)->components.host_start) > __CPROVER_old((u)->components.username_end))
+#define AGG_HOST_EMPTY_OLD(u) (__CPROVER_old((u)->components.host_start) == __CPROVER_old((u)->components.host_end))
+#define AGG_HAS_CRED(u) (AGG_HAS_USER(u) || AGG_HAS_PASS(u))
 static inline _Bool agg_eqv(struct url_aggregator a, struct url_aggregator b) {
   if (a.base.is_valid != b.base.is_valid || a.base.has_opaque_path != b.base.has_opaque_path || a.base.host_type != b.base.host_type || a.base.type != b.base.type) return 0;
   if (a.components.protocol_end != b.components.protocol_end || a.components.username_end != b.components.username_end || a.components.host_start != b.components.host_start ||
